@@ -337,3 +337,73 @@ package val
 //@   ensures val != nil && result1 == nil && f == FmtUInt64 ==> dyn(result0) == UInt64 && denotesInt(result0.(UInt64), val)
 //@   ensures val != nil && result1 == nil && f == FmtDecimal64 ==> dyn(result0) == Decimal64 && denotesFloat(result0.(Decimal64), val)
 //@   ensures val != nil && result1 == nil && f == FmtBool ==> dyn(result0) == Bool && (dyn(val) == bool ==> result0.(Bool) == val.(bool))
+
+// ---- list values: length and items as specification functions (used by meta and node contracts) ------
+//@ pure rangeableList(v Value) bool = dyn(v) == Int8List || dyn(v) == UInt8List || dyn(v) == Int16List || dyn(v) == UInt16List \
+//@      || dyn(v) == Int32List || dyn(v) == UInt32List || dyn(v) == Int64List || dyn(v) == UInt64List || dyn(v) == Decimal64List
+//@ pure llen(v Value) int = dyn(v) == Int8List ? len(v.(Int8List)) : dyn(v) == UInt8List ? len(v.(UInt8List)) : \
+//@      dyn(v) == Int16List ? len(v.(Int16List)) : dyn(v) == UInt16List ? len(v.(UInt16List)) : \
+//@      dyn(v) == Int32List ? len(v.(Int32List)) : dyn(v) == UInt32List ? len(v.(UInt32List)) : \
+//@      dyn(v) == Int64List ? len(v.(Int64List)) : dyn(v) == UInt64List ? len(v.(UInt64List)) : len(v.(Decimal64List))
+//@ macro litem(v Value, i int) Value = \
+//@      dyn(v) == Int8List ? Value(Int8(v.(Int8List)[i])) : dyn(v) == UInt8List ? Value(UInt8(v.(UInt8List)[i])) : \
+//@      dyn(v) == Int16List ? Value(Int16(v.(Int16List)[i])) : dyn(v) == UInt16List ? Value(UInt16(v.(UInt16List)[i])) : \
+//@      dyn(v) == Int32List ? Value(Int32(v.(Int32List)[i])) : dyn(v) == UInt32List ? Value(UInt32(v.(UInt32List)[i])) : \
+//@      dyn(v) == Int64List ? Value(Int64(v.(Int64List)[i])) : dyn(v) == UInt64List ? Value(UInt64(v.(UInt64List)[i])) : \
+//@      Value(Decimal64(v.(Decimal64List)[i]))
+
+
+//@ func (x Int8List) Item(i int) Value
+//@   mode int
+//@   property C05
+//@   requires 0 <= i && i < len(x)
+//@   assigns nothing
+//@   ensures result == litem(x, i)
+//@ func (x UInt8List) Item(i int) Value
+//@   mode int
+//@   property C05
+//@   requires 0 <= i && i < len(x)
+//@   assigns nothing
+//@   ensures result == litem(x, i)
+//@ func (x Int16List) Item(i int) Value
+//@   mode int
+//@   property C05
+//@   requires 0 <= i && i < len(x)
+//@   assigns nothing
+//@   ensures result == litem(x, i)
+//@ func (x UInt16List) Item(i int) Value
+//@   mode int
+//@   property C05
+//@   requires 0 <= i && i < len(x)
+//@   assigns nothing
+//@   ensures result == litem(x, i)
+//@ func (x Int32List) Item(i int) Value
+//@   mode int
+//@   property C05
+//@   requires 0 <= i && i < len(x)
+//@   assigns nothing
+//@   ensures result == litem(x, i)
+//@ func (x UInt32List) Item(i int) Value
+//@   mode int
+//@   property C05
+//@   requires 0 <= i && i < len(x)
+//@   assigns nothing
+//@   ensures result == litem(x, i)
+//@ func (x Int64List) Item(i int) Value
+//@   mode int
+//@   property C05
+//@   requires 0 <= i && i < len(x)
+//@   assigns nothing
+//@   ensures result == litem(x, i)
+//@ func (x UInt64List) Item(i int) Value
+//@   mode int
+//@   property C05
+//@   requires 0 <= i && i < len(x)
+//@   assigns nothing
+//@   ensures result == litem(x, i)
+//@ func (x Decimal64List) Item(i int) Value
+//@   mode int
+//@   property C05
+//@   requires 0 <= i && i < len(x)
+//@   assigns nothing
+//@   ensures result == litem(x, i)
